@@ -19,7 +19,8 @@ RULE = ("row tables (1-5 string columns, skewed small alphabets, empty strings a
 THEOREMS = ["C13_split_indep", "C13_compositions", "C13_card_any_insertion", "C13_card_function_of_rows", "C13_card_exact",
             "C13_counter_exact", "C13_hist_spec", "C13_rare_spec", "C13_rare_checker_sound", "C13_rare_model_ok",
             "C13_missing_cells", "C13_coverage", "C13_coverage_annotation", "C13_mean_nonneg", "C13_symbols_split",
-            "C13_prefix_refuted", "C13_frame_none_free", "C13_split_indep_parsed", "C13_none_cells_refuted"]
+            "C13_prefix_refuted", "C13_frame_none_free", "C13_split_indep_direct", "C13_none_cells_refuted",
+            "C13_frames_fill", "C13_split_indep_parsed", "C13_parsed_card"]
 
 COV_TOL = 1e-9          # per-batch coverage: float (1 - m/n) * 100 against the exact rational
 TIE_TOL = 1e-9          # annotation excluded when the exact mean is this close to k + 0.95 (the only ties that matter)
@@ -97,10 +98,6 @@ def make_case(rng, n, ncols, splits, family, rich=False, smallcap=None, via=None
     rows = [[columns[j][i] for j in range(ncols)] for i in range(n)]
     if via is None:
         via = "batch" if rng.random() < 0.25 else "direct"
-    if via == "batch" and any(v is None for r in rows for v in r):
-        # on the unchanged repo compute_batch_ranking raises in compute_bounds_increment (np.unique of a column mixing
-        # nan / None and str) for every batch of >= 2 rows holding a None cell: not C13's subject
-        via = "direct"
     return {"cols": cols, "rows": rows, "splits": splits, "thr": thr, "bound": bound, "syms": syms,
             "smallcap": smallcap, "via": via, "family": family}
 
@@ -178,8 +175,8 @@ def gen_pipeline(rng):
 
 
 def gen_pipeline_vw(rng):
-    """the real streaming loop over ob-vw lines: label column first, absent namespaces are parsed as None.  With None
-    cells only the all-singletons composition (minibatch_size 1) runs on the unchanged repo (see make_case)."""
+    """the real streaming loop over ob-vw lines: label column first, absent namespaces are parsed as None and carried
+    as '' by compute_batch_ranking (fix 2ffc0d7); every uniform composition"""
     n = rng.choice([4, 6, 8, 12])
     ncols = rng.randint(2, 4)
     with_none = rng.random() < 0.6
@@ -190,12 +187,24 @@ def gen_pipeline_vw(rng):
         c = [v.replace(" ", "_") for v in gen_column(rng, n, syms)]
         columns.append(add_none(rng, c) if with_none else c)
     rows = [[columns[j][i] for j in range(ncols)] for i in range(n)]
-    if any(v is None for r in rows for v in r):
-        sp = [[1] * n]
-    else:
-        sp = [[k] * (n // k) for k in range(1, n + 1) if n % k == 0]
+    sp = [[k] * (n // k) for k in range(1, n + 1) if n % k == 0]
     return {"cols": cols, "rows": rows, "splits": sp, "thr": thr, "bound": bound, "syms": syms, "smallcap": None,
             "via": "pipeline", "source": "ob-vw", "family": "pipeline-vw"}
+
+
+def gen_many_batches(rng):
+    """one long run of the real streaming loop: > 1024 mini-batches of 2 rows (ob-vw, Constant heuristic), the missing rate
+    drifting over the file so that the mean over all batches differs from the mean over any window of them"""
+    nb = rng.randint(1100, 1250)
+    n = 2 * nb
+    rows = []
+    for i in range(n):
+        early = i < n // 5
+        g1 = rng.choice(["", None, "{}", "a"]) if early else rng.choice(["a", "b", "c", "a", "b", ""])
+        g2 = rng.choice(["u", "v", None]) if early else rng.choice(["u", "v", "w", "", None, "u"])
+        rows.append([rng.choice(["0", "1"]), g1, g2])
+    return {"cols": ["label", "g1", "g2"], "rows": rows, "splits": [[2] * nb], "thr": rng.choice([1, 2, 3]), "bound": 30000,
+            "syms": ",{}", "smallcap": None, "via": "pipeline", "source": "ob-vw", "family": "many-batches"}
 
 
 def fixed_cases():
@@ -223,8 +232,12 @@ def fixed_cases():
           ["1", "u", None], ["0", "{}", "y"], ["1", None, "{}"], ["0", "u", None]]
     out.append({"cols": ["label", "feat_a", "feat_b"], "rows": vw, "splits": [[4, 4, 4], [12], [1] * 12, [2, 10], [6, 6]],
                 "thr": 1, "bound": 30000, "syms": ",{}", "smallcap": None, "via": "direct", "family": "fixed"})
-    out.append({"cols": ["label", "feat_a", "feat_b"], "rows": vw, "splits": [[1] * 12], "thr": 2, "bound": 30000, "syms": ",{}",
-                "smallcap": None, "via": "pipeline", "source": "ob-vw", "family": "fixed"})
+    out.append({"cols": ["label", "feat_a", "feat_b"], "rows": vw, "splits": [[4, 4, 4], [1] * 12, [12], [6, 6], [2] * 6], "thr": 2,
+                "bound": 30000, "syms": ",{}", "smallcap": None, "via": "pipeline", "source": "ob-vw", "family": "fixed"})
+    out.append({"cols": ["label", "feat_a", "feat_b"], "rows": vw, "splits": [[4, 4, 4], [12], [5, 7], [1, 11]], "thr": 1,
+                "bound": 30000, "syms": ",{}", "smallcap": None, "via": "batch", "family": "fixed"})
+    out.append({"cols": ["f0", "f1"], "rows": [[None, "x"], ["a", None], [None, "x"]], "splits": [[3], [1, 1, 1], [1, 2], [2, 1]],
+                "thr": 1, "bound": 30000, "syms": ",{}", "smallcap": None, "via": "batch", "family": "fixed"})
     out.append({"cols": ["f0"], "rows": [[None], ["a"], [None]], "splits": [[3], [1, 1, 1], [1, 2], [2, 1]], "thr": 1, "bound": 30000,
                 "syms": ",{}", "smallcap": None, "via": "direct", "family": "fixed"})
     # 2001 rows, one missing: 99.950025 -> 100; 1999 rows: 99.94997 -> 99
@@ -240,9 +253,9 @@ def generate(run):
     rng = run.rng
     cases = fixed_cases()
     if run.tier == "quick":
-        plan = dict(small=120, nmax=5, medium=90, nsplits=7, smallcap=25, big=6, steered=60, pipeline=20, vw=25)
+        plan = dict(small=120, nmax=5, medium=90, nsplits=7, smallcap=25, big=6, steered=60, pipeline=20, vw=25, many=1)
     else:
-        plan = dict(small=900, nmax=6, medium=600, nsplits=14, smallcap=160, big=40, steered=400, pipeline=150, vw=200)
+        plan = dict(small=900, nmax=6, medium=600, nsplits=14, smallcap=160, big=40, steered=400, pipeline=150, vw=200, many=4)
     for _ in range(plan["small"]):
         cases.append(gen_small(rng, plan["nmax"]))
     for _ in range(plan["medium"]):
@@ -257,6 +270,8 @@ def generate(run):
         cases.append(gen_pipeline(rng))
     for _ in range(plan["vw"]):
         cases.append(gen_pipeline_vw(rng))
+    for _ in range(plan["many"]):
+        cases.append(gen_many_batches(rng))
     return cases
 
 
@@ -291,12 +306,17 @@ def val_dec(tag_s):
     return {0: ("s", vlib.from_codes(codes)), 1: ("nan",), 2: ("none",)}[tag]
 
 
+def is_pipeline(case):
+    """batches reach the statistics through compute_batch_ranking (None -> '')"""
+    return case.get("via") in ("batch", "pipeline")
+
+
 def coq_expr(case, r, edges, cap):
     cols = case["cols"]
     idx = {c: j for j, c in enumerate(cols)}
     hashtab = "[" + "; ".join("(%s%%N, %d%%N)" % (slit(v), h) for v, h in r["hashes"]) + "]"
-    mk = "(mkCase %d%%nat %s %s %s %s %s%%N %s %s)" % (
-        len(cols), rows_lit(case["rows"]), vlib.zlit(case["thr"]), vlib.zlit(case["bound"]), vlib.zlit(cap),
+    mk = "(mkCase %d%%nat %s %s %s %s %s %s%%N %s %s)" % (
+        len(cols), vlib.blit(is_pipeline(case)), rows_lit(case["rows"]), vlib.zlit(case["thr"]), vlib.zlit(case["bound"]), vlib.zlit(cap),
         slit(case["syms"]), vlib.zlist(edges), hashtab)
     sizes = "[" + "; ".join(vlib.nlist(s) for s in case["splits"]) + "]%nat"
     obs = []
@@ -413,12 +433,13 @@ def compare_case(case, r, v, meta, probs, info):
     hashes = [h for _, h in r["hashes"]]
     injective = len(set(hashes)) == len(hashes)
     info.update(injective=injective, cold=0, ties=0, beyond_bound=0, beyond_bound_model_agrees=0, writer_late_errors=0,
-                writer_ran=0, empty_report=0, none_table=0, none_split_dependent=0)
+                writer_ran=0, empty_report=0, none_table=0, none_split_dependent=0, none_pipeline_table=0)
     # columns holding a None cell: the frame content (nan / None) depends on the batch, C13_none_cells_refuted — the
     # specification of the concatenation and split independence are claimed for None-free columns (string keys for the rare table)
-    colnone = [any(row[j] is None for row in case["rows"]) for j in range(len(cols))]
+    colnone = [(not is_pipeline(case)) and any(row[j] is None for row in case["rows"]) for j in range(len(cols))]
     tablenone = any(colnone)
     info["none_table"] = 1 if tablenone else 0
+    info["none_pipeline_table"] = 1 if (is_pipeline(case) and has_none(case)) else 0
 
     def add(clause, obligation, splits, impl, model):
         probs.append(dict(clause=clause, obligation=obligation, splits=splits, impl=impl, model=model))
@@ -626,7 +647,7 @@ def check(run, replay):
     hist = {"family": {}, "rows": {}, "ncols": {}, "batches_per_history": {}, "thr": {}, "small_bound": 0, "via_batch_ranking": 0,
             "histories": 0, "histories_with_reentry_of_a_retired_pair": 0}
     agg = dict(cold=0, ties=0, beyond_bound=0, beyond_bound_model_agrees=0, writer_late_errors=0, writer_ran=0, empty_report=0,
-               none_table=0, none_split_dependent=0)
+               none_table=0, none_split_dependent=0, none_pipeline_table=0)
     collisions = 0
 
     def bump(d, k):
@@ -692,12 +713,13 @@ def check(run, replay):
     run.cov["empty_reports_writer_not_called"] = agg["empty_report"]
     run.cov["writer_errors_after_rare_values_tsv_was_written"] = agg["writer_late_errors"]
     run.cov["tables_with_a_hash_collision"] = collisions
-    run.cov["tables_with_None_cells"] = agg["none_table"]
+    run.cov["tables_with_None_cells_through_the_pipeline_spec_and_split_independence_asserted"] = agg["none_pipeline_table"]
+    run.cov["tables_with_None_cells_direct_calls"] = agg["none_table"]
     run.cov["  of_which_statistics_differ_between_compositions_as_C13_none_cells_refuted_predicts"] = agg["none_split_dependent"]
     if agg["none_split_dependent"]:
-        run.notes.append("FINDING (reported, not a VIOLATION of this run): with None cells (ob-vw absent namespaces) cardinality, "
-                         "histogram and rare table of the unchanged code depend on the batch split: pandas stores nan next to strings "
-                         "and None in an all-None batch column; model and implementation agree on every history (C13_none_cells_refuted)")
+        run.notes.append("function-level behaviour (C13_none_cells_refuted; repaired for the pipeline by fix 2ffc0d7): called directly on "
+                         "pd.DataFrame(rows) with None cells, cardinality, histogram and rare table depend on the batch split (nan next to "
+                         "strings, None in an all-None batch column); model and implementation agree on every such history")
     run.cov["exhaustive"] = False
     run.cov["exhaustive_small_scope"] = ("every composition of every generated table with <= %d rows" %
                                          (5 if run.tier == "quick" else 6))
